@@ -143,6 +143,47 @@ static int scan(const ZI* const* registry, int n, int i0, int i1, long grid, lon
   return 0;
 }
 
+
+// configurations (C01/C02 quantify over them): the zones [i0, i1) are visited in turn at every grid instant (a) through a
+// zone manager with fewer cache slots than zones and (b) through directly created time zones sharing ONE processor; every
+// answer must equal the answer of a time zone with a processor of its own (the one whose sweep is judged by TzSem.tla).
+template <typename ZI, typename ZP, typename ZONE, typename MGR>
+static int cfgscan(const ZI* const* registry, int n, int i0, int i1, long grid, long t0, long t1) {
+  if (i1 > n) i1 = n;
+  int nz = i1 - i0;
+  if (nz <= 0) return 0;
+  MGR mgr((uint16_t) n, registry);
+  ZP shared;
+  std::vector<ZP> own(nz);
+  long nq = 0, nbad = 0;
+  std::string out = "{\"cfg\":[" ;
+  char buf[256];
+  snprintf(buf, sizeof buf, "%d,%d],\"bad\":[", i0, i1); out += buf;
+  for (long t = t0; t < t1; t += grid) {
+    for (int r = 0; r < 2; r++) for (int j = 0; j < nz; j++) {
+      const ZI* zi = registry[i0 + ((j * 5 + (int) (t / grid)) % nz)];
+      int jj = (int) ((j * 5 + (int) (t / grid)) % nz);
+      TimeZone ref = TimeZone::forZoneInfo(zi, &own[jj]);
+      Obs want = observe(ref, (acetime_t) t);
+      TimeZone tz = r == 0 ? mgr.createForZoneInfo(zi) : TimeZone::forZoneInfo(zi, &shared);
+      Obs got = observe(tz, (acetime_t) t);
+      nq++;
+      if (got != want) {
+        if (nbad < 8) {
+          snprintf(buf, sizeof buf, "%s{\"zone\":%s,\"t\":%ld,\"via\":\"%s\",\"got\":[%d,%d,%s],\"want\":[%d,%d,%s]}", nbad ? "," : "", jstr((const char*) ZONE(zi).name()).c_str(), t,
+              r == 0 ? "manager" : "shared-processor", got.utoff, got.delta, jstr(got.abbr.c_str()).c_str(), want.utoff, want.delta, jstr(want.abbr.c_str()).c_str());
+          out += buf;
+        }
+        nbad++;
+      }
+    }
+  }
+  snprintf(buf, sizeof buf, "],\"nq\":%ld,\"nbad\":%ld}", nq, nbad);
+  out += buf;
+  puts(out.c_str());
+  return 0;
+}
+
 template <typename ZI, typename ZP, typename ZONE>
 static int probe(const ZI* const* registry, int n, int zi, int argc, char** argv) {
   if (zi < 0 || zi >= n) return 2;
@@ -306,6 +347,11 @@ int main(int argc, char** argv) {
     (void) argv[9];
     if (basic) return scan<basic::ZoneInfo, BasicZoneProcessor, BasicZone>(zonedb::kZoneRegistry, zonedb::kZoneRegistrySize, i0, i1, grid, t0, t1, fs);
     return scan<extended::ZoneInfo, ExtendedZoneProcessor, ExtendedZone>(zonedbx::kZoneRegistry, zonedbx::kZoneRegistrySize, i0, i1, grid, t0, t1, fs);
+  }
+  if (cmd == "cfgscan" && argc >= 8) {
+    int a = atoi(argv[3]), b = atoi(argv[4]); long grid = atol(argv[5]), t0 = atol(argv[6]), t1 = atol(argv[7]);
+    if (basic) return cfgscan<basic::ZoneInfo, BasicZoneProcessor, BasicZone, BasicZoneManager<2>>(zonedb::kZoneRegistry, zonedb::kZoneRegistrySize, a, b, grid, t0, t1);
+    return cfgscan<extended::ZoneInfo, ExtendedZoneProcessor, ExtendedZone, ExtendedZoneManager<2>>(zonedbx::kZoneRegistry, zonedbx::kZoneRegistrySize, a, b, grid, t0, t1);
   }
   if (cmd == "bufs" && argc >= 5) return bufs_extended(atoi(argv[3]), atoi(argv[4]));
   if (cmd == "wallraw") { g_wall_raw = true; cmd = "wall"; }
